@@ -34,6 +34,9 @@ CHECKS = {
  "C09": ("fault_enumeration", "§9 C09",
    "For each generated rollout scenario a fault-free reference run records the sequence of in-sync interactions; then one run per (position, kind) injects a crash before the request is applied, a crash after it is applied (response lost), each API error kind (404, 409, 410, 422, 500, connection error, applied-response-lost) or a crash during a hook call at exactly that position. Oracles: in every sync all ControllerRevision writes precede every child create/delete/content update and a failed one stops the sync; at every restart no child is listed in two revisions and none is ahead of the revision that records it; after recovery the rollout reaches the same final state as the uninterrupted run.",
    "deterministic simulation, exhaustive single-fault / crash-point enumeration per scenario"),
+ "C16": ("exploration", "§9 C16",
+   "Simulated runs with 1-2 decorators sharing targets (with / without status subresource, own labels, annotations, status, spec, foreign finalizers), label / annotation selectors incl. expressions, decorate programs driven by the target (label and annotation maps with additions, overwrites and nulls; status null / set / different; finalized), target edits, deletion with every propagation policy and re-creation under the same name, attachments deleted, drifted, unmarked or made by someone else; every accepted write on a target is diffed against its pre-state: only label / annotation keys named in that sync's response (null = absent), .status unless the response's status is null, and the decorator's own finalizer may change; a sync whose requests change nothing is a violation; hook calls only for selected (or finalizer-carrying) objects; attachments shown, updated or deleted only with controller reference to the target and this decorator's marker.",
+   "deterministic simulation, pre/post-state diff oracle per accepted write"),
 }
 
 NA = {
